@@ -4,6 +4,7 @@ Model construction from parse trees and the model API.
 
 from __future__ import annotations
 
+import bisect
 import traceback
 from collections import OrderedDict
 from collections.abc import Callable
@@ -1125,6 +1126,9 @@ class ReferenceResolver:
         self.model = model
         self.pos_crossref_list = pos_crossref_list  # tool support
         self.delayed_crossrefs = []
+        # Positions (in the input) of the references already resolved into
+        # each list attribute, kept sorted: {(id(obj), attr name): [positions]}
+        self._resolved_list_positions = {}
 
     def has_unresolved_crossrefs(self, obj, attr_name=None):
         """
@@ -1235,7 +1239,17 @@ class ReferenceResolver:
                 else:
                     resolved_crossref_count += 1
                     if attr.mult in [MULT_ONEORMORE, MULT_ZEROORMORE]:
-                        attr_value.append(resolved)
+                        # Keep the textual order of the references also when
+                        # some of them were postponed and resolve in a later
+                        # step: insert before the targets of references that
+                        # appear later in the input.
+                        positions = self._resolved_list_positions.setdefault(
+                            (id(obj), attr.name), []
+                        )
+                        idx = bisect.bisect_right(positions, crossref.position)
+                        later = len(positions) - idx
+                        positions.insert(idx, crossref.position)
+                        attr_value.insert(len(attr_value) - later, resolved)
                     else:
                         setattr(obj, attr.name, resolved)
             else:  # crossref not in model
